@@ -19,6 +19,11 @@ class Refuse(Exception):
     """Expression or statement is outside the folding language."""
 
 
+class HardRefuse(Refuse):
+    """Outside the folding language in a way that must end the fold: continuing symbolically would drop a side effect (an in-place
+    method of a concrete container that the folder does not model)."""
+
+
 class Raised(Exception):
     """The folded code raises an exception of this name on this input."""
 
@@ -288,6 +293,11 @@ def type_tag_of(v):
 
 
 _ALLOC = ("np.zeros", "np.ones", "np.empty", "np.zeros_like", "np.ones_like", "np.empty_like", "np.full", "np.full_like")
+
+
+def _shallow_nested(d):
+    """Copy of a nested list structure that keeps the (symbolic) leaves themselves."""
+    return [_shallow_nested(x) for x in d] if isinstance(d, list) else d
 
 
 def is_allocation(c):
@@ -939,6 +949,12 @@ class Folder:
                 return list(recv).index(*args)
             except ValueError:
                 raise Raised("ValueError", n)
+        if isinstance(recv, Arr) and f.attr == "copy" and not args and self.symbolic:
+            import copy as _copy
+
+            out = Arr(_copy.deepcopy(recv.data) if all(not isinstance(v, (Sym, Opaque)) for v in recv.flat()) else _shallow_nested(recv.data))
+            out.copied_from = recv
+            return out
         if isinstance(recv, Arr) and f.attr == "copy" and not args:
             return Arr(copy_nested(recv.data))
         if isinstance(recv, Arr) and f.attr == "tolist" and not args:
@@ -948,6 +964,26 @@ class Folder:
         if isinstance(recv, list) and f.attr == "append":
             recv.append(args[0])
             return None
+        if isinstance(recv, list) and f.attr == "pop" and len(args) <= 1 and all(isinstance(a, int) and not isinstance(a, bool) for a in args):
+            try:
+                return recv.pop(*args)
+            except IndexError:
+                raise Raised("IndexError", n)
+        if isinstance(recv, list) and f.attr == "insert" and len(args) == 2 and isinstance(args[0], int) and not isinstance(args[0], bool):
+            recv.insert(args[0], args[1])
+            return None
+        if isinstance(recv, list) and f.attr == "extend" and len(args) == 1 and isinstance(args[0], (list, tuple)):
+            recv.extend(args[0])
+            return None
+        if isinstance(recv, list) and f.attr == "reverse" and not args:
+            recv.reverse()
+            return None
+        if isinstance(recv, list) and f.attr == "clear" and not args:
+            recv.clear()
+            return None
+        if isinstance(recv, (list, dict)) and f.attr in ("pop", "insert", "extend", "remove", "reverse", "sort", "clear", "popitem", "setdefault", "update") and self.symbolic:
+            if not (isinstance(recv, dict) and f.attr in ("update", "pop")):
+                raise HardRefuse(f"in-place method {f.attr} on a concrete {type(recv).__name__} in a form the folder does not model")
         if isinstance(recv, slice) and f.attr == "indices" and len(args) == 1:
             n_ = args[0]
             if all(x is None or (isinstance(x, int) and not isinstance(x, bool)) for x in (recv.start, recv.stop, recv.step)) and isinstance(n_, int):
@@ -1077,6 +1113,8 @@ class Folder:
         if isinstance(f, ast.Attribute) and not (isinstance(f.value, ast.Name) and f.value.id in ("np", "numpy", "math", "darsia", "da")):
             try:
                 return self.method_call(n, env)
+            except HardRefuse:
+                raise
             except Refuse:
                 if self.resolver is None and not self.symbolic:
                     raise
@@ -1186,6 +1224,8 @@ class Folder:
             if not isinstance(f, (ast.Name, ast.Attribute)):
                 try:
                     fv = self.ev(f, env)
+                    if callable(fv) and not isinstance(fv, (Opaque, Sym, Obj, Arr)):
+                        return fv(args, kw)   # a constructor / function supplied by the rule that set the fold up (type(x) of a stand-in)
                     if isinstance(fv, Opaque) and fv.tag == "callable":
                         label = fv.label
                 except Refuse:
@@ -1359,10 +1399,21 @@ class Folder:
             if isinstance(d, (list, tuple)):
                 return [go(x) for x in d]
             if isinstance(d, Arr):
-                return d.data
+                return _shallow_nested(d.data)   # np.array copies
             return d
 
-        return Arr(go(v)) if isinstance(v, (list, tuple, Arr)) else v
+        if isinstance(v, Arr):
+            out = Arr(_shallow_nested(v.data))
+            out.copied_from = v
+            return out
+        return Arr(go(v)) if isinstance(v, (list, tuple)) else v
+
+    def c_np_asarray(self, a, kw):
+        # no copy when the argument is an array already (a dtype conversion may copy -- the sharing case is the one that matters)
+        v = a[0]
+        if isinstance(v, Arr):
+            return v
+        return self.c_np_array(a, kw)
 
     def c_np_ones(self, a, kw):
         return self._full(a[0], 1)
@@ -1634,6 +1685,27 @@ class Folder:
             if self.symbolic and isinstance(st.target, ast.Subscript) and type(st.op) in self._OPSYM:
                 # in-place update of part of an array: recorded, in order (container, index, operator, operand)
                 c = self.ev(st.target.value, env)
+                if isinstance(c, (Arr, list)):
+                    # a concrete container and a concrete position: the entry is updated in place (Python semantics; every alias sees it)
+                    i = self.ev(st.target.slice, env)
+                    idx = (i,) if isinstance(i, int) and not isinstance(i, bool) else (i if isinstance(i, tuple) and all(isinstance(x, int) and not isinstance(x, bool) for x in i) else None)
+                    if idx is not None and (isinstance(c, Arr) or len(idx) == 1):
+                        val = self.ev(st.value, env)
+                        cur_ = c.data if isinstance(c, Arr) else c
+                        try:
+                            for x in idx[:-1]:
+                                cur_ = cur_[x]
+                            old = cur_[idx[-1]]
+                        except (IndexError, TypeError):
+                            raise Raised("IndexError", st)
+                        if not isinstance(old, list):
+                            if is_num(old) and is_num(val):
+                                cur_[idx[-1]] = _binop(st.op, old, val)
+                            else:
+                                cur_[idx[-1]] = Sym(self._OPSYM[type(st.op)], [old, val])
+                            if isinstance(c, Arr):
+                                c.__dict__.setdefault("updated_in_place", []).append((idx, self._OPSYM[type(st.op)], val))
+                            return
                 if isinstance(c, (Arr, Sym, Opaque)):
                     if is_allocation(c):
                         self.trace.append(Sym("augitem", [c, self.ev(st.target.slice, env), self._OPSYM[type(st.op)], self.ev(st.value, env)]))
